@@ -20,6 +20,23 @@ def HotStart {α} (km : KModel α) : Prop :=
     km.run p a st = .ok o₁ → km.run p b o₁.states = .ok o₂ →
     ∃ o, km.run p (catSeries a b) st = .ok o ∧ o.outputs = catSeries o₁.outputs o₂.outputs ∧ o.states = o₂.states
 
+/-- `HotStart` restricted to splits that satisfy a side condition `C p st o₁.states` on the parameter column, the
+initial state row and the state row handed from the first call to the second (used for the models where the
+unrestricted statement is false; the condition says exactly what must not happen at the split point). -/
+def HotStartWhen {α} (km : KModel α) (C : List α → List α → List α → Prop) : Prop :=
+  ∀ (p : List α) (a b : List (List α)) (st : List α) (n₁ n₂ : Nat) (o₁ o₂ : KOut α),
+    a.length = b.length → AllLen n₁ a → AllLen n₂ b →
+    km.run p a st = .ok o₁ → km.run p b o₁.states = .ok o₂ → C p st o₁.states →
+    ∃ o, km.run p (catSeries a b) st = .ok o ∧ o.outputs = catSeries o₁.outputs o₂.outputs ∧ o.states = o₂.states
+
+theorem hotStart_iff_when {α} (km : KModel α) : HotStart km ↔ HotStartWhen km (fun _ _ _ => True) :=
+  ⟨fun h p a b st n₁ n₂ o₁ o₂ hl ha hb h₁ h₂ _ => h p a b st n₁ n₂ o₁ o₂ hl ha hb h₁ h₂,
+   fun h p a b st n₁ n₂ o₁ o₂ hl ha hb h₁ h₂ => h p a b st n₁ n₂ o₁ o₂ hl ha hb h₁ h₂ trivial⟩
+
+theorem HotStartWhen.mono {α} {km : KModel α} {C D : List α → List α → List α → Prop} (h : HotStartWhen km C)
+    (hd : ∀ p st s, D p st s → C p st s) : HotStartWhen km D :=
+  fun p a b st n₁ n₂ o₁ o₂ hl ha hb h₁ h₂ hc => h p a b st n₁ n₂ o₁ o₂ hl ha hb h₁ h₂ (hd _ _ _ hc)
+
 /-- **Causality**: outputs up to the end of the first part do not depend on the later inputs.
 Consequence of `HotStart` whenever both runs succeed. -/
 theorem causal_of_hotStart {α} (km : KModel α) (h : HotStart km)
@@ -87,14 +104,50 @@ theorem zip4_append {β γ δ ε} (a₁ a₂ : List β) (b₁ b₂ : List γ) (c
           simp only [List.cons_append, zip4]
           rw [ih ys zs ws (by simpa using h₁) (by simpa using h₂) (by simpa using h₃)]
 
+theorem zip5_append {β γ δ ε ζ} (a₁ a₂ : List β) (b₁ b₂ : List γ) (c₁ c₂ : List δ) (d₁ d₂ : List ε) (e₁ e₂ : List ζ)
+    (h₁ : a₁.length = b₁.length) (h₂ : a₁.length = c₁.length) (h₃ : a₁.length = d₁.length)
+    (h₄ : a₁.length = e₁.length) :
+    zip5 (a₁ ++ a₂) (b₁ ++ b₂) (c₁ ++ c₂) (d₁ ++ d₂) (e₁ ++ e₂) = zip5 a₁ b₁ c₁ d₁ e₁ ++ zip5 a₂ b₂ c₂ d₂ e₂ := by
+  induction a₁ generalizing b₁ c₁ d₁ e₁ with
+  | nil =>
+    cases b₁ <;> cases c₁ <;> cases d₁ <;> cases e₁ <;> simp_all [zip5]
+  | cons x xs ih =>
+    cases b₁ with
+    | nil => simp at h₁
+    | cons y ys =>
+      cases c₁ with
+      | nil => simp at h₂
+      | cons z zs =>
+        cases d₁ with
+        | nil => simp at h₃
+        | cons w ws =>
+          cases e₁ with
+          | nil => simp at h₄
+          | cons v vs =>
+            simp only [List.cons_append, zip5]
+            rw [ih ys zs ws vs (by simpa using h₁) (by simpa using h₂) (by simpa using h₃) (by simpa using h₄)]
+
+/-- two members of a block with `AllLen` have equal length -/
+theorem AllLen.eq {β} {n : Nat} {xs : List (List β)} (h : AllLen n xs) {s t : List β} (hs : s ∈ xs) (ht : t ∈ xs) :
+    s.length = t.length := by rw [h s hs, h t ht]
+
 /-- `scan` over a concatenation, in the form used by the per-model proofs -/
 theorem scan_append' {σ ι ο : Type} (step : σ → ι → σ × ο) (s : σ) (a b : List ι) :
     (scan step s (a ++ b)).1 = (scan step (scan step s a).1 b).1 ∧
     (scan step s (a ++ b)).2 = (scan step s a).2 ++ (scan step (scan step s a).1 b).2 := by
   rw [scan_append]; exact ⟨rfl, rfl⟩
 
+theorem scan_append_fst {σ ι ο : Type} (step : σ → ι → σ × ο) (s : σ) (a b : List ι) :
+    (scan step s (a ++ b)).1 = (scan step (scan step s a).1 b).1 := (scan_append' step s a b).1
+
+theorem scan_append_snd {σ ι ο : Type} (step : σ → ι → σ × ο) (s : σ) (a b : List ι) :
+    (scan step s (a ++ b)).2 = (scan step s a).2 ++ (scan step (scan step s a).1 b).2 := (scan_append' step s a b).2
+
 theorem map_append_scan {σ ι ο τ : Type} (f : ο → τ) (step : σ → ι → σ × ο) (s : σ) (a b : List ι) :
     (scan step s (a ++ b)).2.map f = (scan step s a).2.map f ++ (scan step (scan step s a).1 b).2.map f := by
   rw [(scan_append' step s a b).2, List.map_append]
+
+theorem zeros_add {α} [Num α] (m n : Nat) : (zeros (m + n) : List α) = zeros m ++ zeros n := by
+  simp [zeros, List.replicate_append_replicate]
 
 end OW
